@@ -730,7 +730,7 @@ func (g *vIngress) replay(hi int, h []vStep, finals *sync.Map) *vBad {
 				nexp = 1
 			}
 			if !vFence.Load() {
-				vWait(func() bool { return int64(m.s.nBatches()-m.n) >= nexp }, 300*time.Millisecond)
+				vWait(func() bool { return int64(m.s.nBatches()-m.n) >= nexp }, 2*time.Second)
 			}
 			if act := vNotesOf(vNoFence(m.s.batches(m.n))); act != exp {
 				if b := bad(si, "notify-"+m.s.kind, exp, m.s.name+": "+act); b != nil {
@@ -1182,7 +1182,9 @@ func (c *vCluster) viol(kind, ev string, nd int, key, what string) {
 
 // infected operations of node i, read the way a peer reads them (empty sync).
 func (c *vCluster) infected(i int) ([]Operation, error) {
-	r, err := c.w.opNet.UnaryClient().Send(c.w.ctx, vAddr(i), TxRequest{Sender: 0})
+	ictx, cancel := context.WithTimeout(c.w.ctx, 5*time.Second)
+	defer cancel()
+	r, err := c.w.opNet.UnaryClient().Send(ictx, vAddr(i), TxRequest{Sender: 0})
 	if err != nil {
 		return nil, err
 	}
@@ -1198,8 +1200,21 @@ func vHasOp(ops []Operation, o vOp) bool {
 	return false
 }
 
+// vSlow counts store barriers that timed out (only a tree whose gossip store disagrees with the
+// harness mirror); after a few of them the barriers stop waiting so that a run stays bounded.
+var vSlow atomic.Int64
+
+func vBarrier(cond func() bool, d time.Duration) {
+	if vSlow.Load() > 12 {
+		d = 2 * time.Millisecond
+	}
+	if !vWait(cond, d) {
+		vSlow.Add(1)
+	}
+}
+
 func (c *vCluster) waitInfected(i int, want []vOp) {
-	vWait(func() bool {
+	vBarrier(func() bool {
 		inf, err := c.infected(i)
 		if err != nil {
 			return true
@@ -1253,7 +1268,7 @@ func (c *vCluster) collectNotes(evName string, changed map[int][]vOp) []vNoteEv 
 				}
 			}
 			m := c.marks[s]
-			vWait(func() bool { return s.nBatches()-m >= exp }, 300*time.Millisecond)
+			vWait(func() bool { return s.nBatches()-m >= exp }, 2*time.Second)
 			var ops []vOp
 			id := fmt.Sprintf("%d/%s", i, s.name)
 			for _, b := range s.batches(m) {
@@ -1533,7 +1548,9 @@ func (c *vCluster) deliver(idx int) {
 		c.w.mu.Lock()
 		fb0 := len(c.w.fbs)
 		c.w.mu.Unlock()
-		reply, err := c.w.opNet.UnaryClient().Send(c.w.ctx, vAddr(m.To), TxRequest{Sender: node.Key(m.From), Operations: m.Ops})
+		sctx, cancel := context.WithTimeout(c.w.ctx, 5*time.Second)
+		reply, err := c.w.opNet.UnaryClient().Send(sctx, vAddr(m.To), TxRequest{Sender: node.Key(m.From), Operations: m.Ops})
+		cancel()
 		if err != nil {
 			c.broken = "deliver: " + err.Error()
 			return
@@ -1579,13 +1596,16 @@ func (c *vCluster) deliver(idx int) {
 			}
 			c.reps[m.To-1][key]++
 		}
-		if _, err := c.w.fbNet.UnaryClient().Send(c.w.ctx, vAddr(m.To), FeedbackMessage{Sender: node.Key(m.From), Digests: Operations(m.Ops).digests()}); err != nil {
+		fctx, cancel := context.WithTimeout(c.w.ctx, 5*time.Second) // a dead pipeline must not hang the harness
+		_, err := c.w.fbNet.UnaryClient().Send(fctx, vAddr(m.To), FeedbackMessage{Sender: node.Key(m.From), Digests: Operations(m.Ops).digests()})
+		cancel()
+		if err != nil {
 			c.broken = "feedback: " + err.Error()
 			return
 		}
 		if len(hits) > 0 {
 			c.stats["recovered"] += len(hits)
-			vWait(func() bool {
+			vBarrier(func() bool {
 				inf, err := c.infected(m.To)
 				if err != nil {
 					return true
